@@ -21,6 +21,37 @@ def lat_grid(base):
     return [base] + [x for x in LATS if x != base]
 
 
+class HoldInClaim:
+    """trace factory: numbers the line events the job thread of stack #stack executes in controller_application.py and holds
+    the thread at the chosen one"""
+
+    def __init__(self, stack, point, hold):
+        self.stack, self.point, self.hold = stack, point, hold
+        self.count = 0
+        self.where = None
+        self.seen = 0
+
+    def __call__(self, lt, idx):
+        if lt.kind != 'J':
+            return None
+        k = self.seen
+        self.seen += 1
+        if k != self.stack:
+            return None
+        me = self
+
+        def tracer(frame, event, arg):
+            if not frame.f_code.co_filename.endswith('controller_application.py'):
+                return tracer if event == 'call' else None
+            if event == 'line':
+                me.count += 1
+                if me.count == me.point:
+                    me.where = "%s:%d" % (frame.f_code.co_name, frame.f_lineno)
+                    rt.CUR.hold(me.hold)
+            return tracer
+        return tracer
+
+
 class ClaimNet:
     """sc = {'cas': [{'idn': identity number, 'aac': 0|1, 'addr': preferred, 'start': t, 'delay': d}],
              'base_lat', 'lat_grid', 'wake_grid'}"""
@@ -28,7 +59,11 @@ class ClaimNet:
     def __init__(self, sc, prefix=(), seed=0, probes=False):
         self.sc = sc
         self.ch = rt.Chooser(prefix)
-        self.w = w = rt.World(self.ch, wake_grid=sc.get('wake_grid'))
+        self.pre = None
+        if sc.get('preempt'):
+            # the job thread of one ECU is held at one source line of controller_application.py (numbered by a baseline run)
+            self.pre = HoldInClaim(sc['preempt']['stack'], sc['preempt']['point'], sc['preempt'].get('hold', 0.004))
+        self.w = w = rt.World(self.ch, wake_grid=sc.get('wake_grid'), trace_factory=self.pre)
         rt.activate(w)
         self.bus = bus = Bus(w, base_lat=sc.get('base_lat', 1e-3), lat_grid=sc.get('lat_grid'))
         bus.cap = 400
@@ -190,7 +225,7 @@ class ClaimNet:
             if sa == 255:
                 probs.append("%s: CA %d sent an address-claimed frame from the global address 255" % (when, si))
                 break
-        for adr, lst in sorted(holders.items()):
+        for adr, lst in sorted(holders.items(), key=lambda kv: repr(kv[0])):
             if len(lst) > 1:
                 probs.append("%s: CAs %s are all operational on address %d" % (when, lst, adr))
         claimed = {}
@@ -280,7 +315,42 @@ def csig(probs):
     return p.split(': ', 1)[-1] if p.startswith('at quiescence') else p
 
 
+def preempt_worker(item):
+    """the job thread of one ECU is held at every source line it executes in controller_application.py (the claim timer
+    callback) while the contending claim of another ECU is handled by its receive thread"""
+    _k, base, stack, seed = item
+    acc = Acc()
+    counts = []
+    for _ in range(2):
+        net = ClaimNet(dict(base, preempt={'stack': stack, 'point': 0}), (), seed)
+        try:
+            net.run()
+            counts.append(net.pre.count)
+        finally:
+            net.close()
+    if counts[0] != counts[1]:
+        acc.violation("HARNESS: line-event numbering not reproducible", base, None, [repr(counts)])
+        return acc
+    for pt in range(1, counts[0] + 1):
+        for hold in (0.002, 0.006):
+            sc = dict(base, preempt={'stack': stack, 'point': pt, 'hold': hold})
+            net = ClaimNet(sc, (), seed)
+            try:
+                probs = net.run()
+                where = net.pre.where
+                outcome = ([(f.src, f.can_id) for f in net.bus.log], net.snapshot())
+            finally:
+                net.close()
+            acc.case(repr(sorted(sc.items(), key=repr)), nontrivial=True, outcome=outcome)
+            if probs:
+                acc.violation(csig(probs), sc, None, probs[:3] + ["job thread held at %s" % where])
+    acc.sample({'scenario': base, 'preempted_stack': stack, 'line_events': counts[0]})
+    return acc
+
+
 def worker(item):
+    if item[0] == 'preempt':
+        return preempt_worker(item)
     sc, bound, seed = item
     acc = Acc()
 
@@ -389,14 +459,26 @@ ASSUME = ["NAMEs differ in the identity number and in the AAC bit (bit 63 takes 
           "room is left below 247 / 253 for every chain of re-claims", "settling bound: number of CAs x 0.75 s after the last claim start"]
 
 
+def preempt_items(tier, seed):
+    """two ECUs contending for one address in the veto range; the second claim arrives shortly before / at / after the moment
+    the first CA's veto window ends; either job thread is held at every line of the claim code"""
+    out = []
+    for aac in ((0, 0), (1, 0), (0, 1), (1, 1)):
+        for (idA, idB) in ((2, 1), (1, 2)):
+            for dB in ((0.245, 0.249, 0.2495, 0.251) if tier == 'quick' else (0.0, 0.1, 0.243, 0.245, 0.247, 0.249, 0.2495, 0.25, 0.251, 0.4)):
+                base = {'cas': [{'idn': idA, 'aac': aac[0], 'addr': 128, 'delay': 0.0},
+                                {'idn': idB, 'aac': aac[1], 'addr': 128, 'delay': dB}], 'base_lat': 1e-3}
+                for stack in (0, 1):
+                    out.append(('preempt', base, stack, seed))
+    return out
+
+
 def run(tier, seed):
     items = [(sc, b, seed) for (sc, b) in configs(tier)]
     # group cheap bound-0 scenarios into chunks to keep IPC low
     items.sort(key=lambda it: -it[1])
-    return run_check(PROP, tier, seed, 'exploration', items, worker_chunk, RULE, ASSUME,
-                     bounds={'deviation_bound': 1 if tier == 'quick' else 2}) if False else \
-        run_check(PROP, tier, seed, 'exploration', chunked(items), worker_chunk, RULE, ASSUME,
-                  bounds={'deviation_bound': 1 if tier == 'quick' else 2})
+    return run_check(PROP, tier, seed, 'exploration', [[it] for it in preempt_items(tier, seed)] + chunked(items), worker_chunk, RULE, ASSUME,
+                     bounds={'deviation_bound': 1 if tier == 'quick' else 2})
 
 
 def chunked(items, n=40):
